@@ -701,39 +701,83 @@ example : (genSatsNfw ⟨⟨true, true, true⟩, false, none, 1/2, 100⟩
   decide +kernel
 
 /-- **nfw_rsd.**  The RSD of the NFW branch: only `z` changes, `z' = z + v_z·inv − k·L` for an integer `k`,
-and (for `L > 0`) `z' ∈ [0, L)` — the range of Python's `%`, whatever the input. -/
+and (for `L > 0`) `z' ∈ [−L/2, L/2)` for every input (any number of periods is removed). -/
 theorem nfw_rsd (cfg : Cfg) (h : Host) (d : Draw) (hr : cfg.rsd = true) (hL : 0 < cfg.lbox) :
     (mkNfw cfg h d).pos.x = d.pos.x ∧ (mkNfw cfg h d).pos.y = d.pos.y ∧
     (∃ k : Int, (mkNfw cfg h d).pos.z = d.pos.z + d.vel.z * cfg.inv - k * cfg.lbox) ∧
-    0 ≤ (mkNfw cfg h d).pos.z ∧ (mkNfw cfg h d).pos.z < cfg.lbox := by
-  have e : (mkNfw cfg h d).pos = ⟨d.pos.x, d.pos.y, pyMod (d.pos.z + d.vel.z * cfg.inv) cfg.lbox⟩ := by
+    -(cfg.lbox / 2) ≤ (mkNfw cfg h d).pos.z ∧ (mkNfw cfg h d).pos.z < cfg.lbox / 2 := by
+  have e : (mkNfw cfg h d).pos =
+      ⟨d.pos.x, d.pos.y, pyMod (d.pos.z + d.vel.z * cfg.inv + cfg.lbox / 2) cfg.lbox - cfg.lbox / 2⟩ := by
     simp [mkNfw, hr]
   rw [e]
   generalize d.pos.z + d.vel.z * cfg.inv = x
   generalize cfg.lbox = L at hL
-  have hfl : (x / L).floor = ⌊x / L⌋ := rfl
-  have h1 := Int.floor_le (x / L)
-  have h2 := Int.lt_floor_add_one (x / L)
-  have hx : L * (x / L) = x := by rw [mul_comm]; exact div_mul_cancel₀ x (ne_of_gt hL)
+  have hfl : ((x + L / 2) / L).floor = ⌊(x + L / 2) / L⌋ := rfl
+  have h1 := Int.floor_le ((x + L / 2) / L)
+  have h2 := Int.lt_floor_add_one ((x + L / 2) / L)
+  have hx : L * ((x + L / 2) / L) = x + L / 2 := by rw [mul_comm]; exact div_mul_cancel₀ _ (ne_of_gt hL)
   have h1' := mul_le_mul_of_nonneg_left h1 (le_of_lt hL)
   have h2' := mul_lt_mul_of_pos_left h2 hL
   rw [hx] at h1' h2'
-  refine ⟨rfl, rfl, ⟨⌊x / L⌋, ?_⟩, ?_, ?_⟩
+  refine ⟨rfl, rfl, ⟨⌊(x + L / 2) / L⌋, ?_⟩, ?_, ?_⟩
   · simp only [pyMod, hfl]; ring
   · simp only [pyMod, hfl]; linarith
   · simp only [pyMod, hfl]; linarith
 
-/-- **nfw_rsd_leaves_the_box.**  The NFW branch does not satisfy the property's range clause: a satellite at
-`z = −10` in a box `[−50, 50)` with zero line-of-sight velocity (single-wrap precondition trivially met) ends
-at `z' = 90`, outside `[−L/2, L/2)`, whereas `wrap` (centrals, particle satellites) leaves it at `−10`. -/
-theorem nfw_rsd_leaves_the_box :
-    ∃ (cfg : Cfg) (h : Host) (d : Draw), cfg.rsd = true ∧ cfg.origin = none ∧ 0 < cfg.lbox ∧
-      -(cfg.lbox / 2) ≤ d.pos.z ∧ d.pos.z < cfg.lbox / 2 ∧ |d.vel.z * cfg.inv| ≤ cfg.lbox ∧
-      ¬ ((mkNfw cfg h d).pos.z < cfg.lbox / 2) ∧
-      (applyRsd cfg 0 d.pos d.vel).z = d.pos.z := by
-  refine ⟨⟨⟨true, true, true⟩, true, none, 1/2, 100⟩,
-    ⟨7, 10, ⟨1, 2, 3⟩, ⟨10, 20, 30⟩, ⟨4, 8, 12⟩, 0, ⟨1, 0, 0⟩, 0⟩, ⟨⟨1, 2, -10⟩, ⟨5, 5, 0⟩⟩,
-    rfl, rfl, ?_, ?_, ?_, ?_, ?_, ?_⟩ <;> decide +kernel
+/-- **nfw_rsd_eq_wrap.**  Under the single-wrap precondition (`z + v_z·inv ∈ [−3L/2, 3L/2)`, which follows from
+`−L/2 ≤ z < L/2` and `|v_z·inv| ≤ L`) the NFW branch and `wrap` (centrals, particle satellites) put a galaxy at
+the same `z`: the two RSD formulas of the package agree wherever `wrap` is valid. -/
+theorem nfw_rsd_eq_wrap (x L : Rat) (hL : 0 < L) (hlo : -(3 * L / 2) ≤ x) (hhi : x < 3 * L / 2) :
+    pyMod (x + L / 2) L - L / 2 = wrap x L := by
+  have hfl : ((x + L / 2) / L).floor = ⌊(x + L / 2) / L⌋ := rfl
+  have h1 := Int.floor_le ((x + L / 2) / L)
+  have h2 := Int.lt_floor_add_one ((x + L / 2) / L)
+  have hx : L * ((x + L / 2) / L) = x + L / 2 := by rw [mul_comm]; exact div_mul_cancel₀ _ (ne_of_gt hL)
+  have h1' := mul_le_mul_of_nonneg_left h1 (le_of_lt hL)
+  have h2' := mul_lt_mul_of_pos_left h2 hL
+  rw [hx] at h1' h2'
+  obtain ⟨hw1, hw2⟩ := wrap_range hlo hhi
+  set k := ⌊(x + L / 2) / L⌋ with hk
+  -- both sides are x minus a multiple of L and lie in [-L/2, L/2): the multiples coincide
+  rcases wrap_cases x L with hw | hw | hw
+  · have hk0 : k = 0 := by
+      have a : (k : ℚ) * L ≤ x + L / 2 := by linarith
+      have b : x + L / 2 < ((k : ℚ) + 1) * L := by linarith
+      rw [hw] at hw1 hw2
+      have c1 : (k : ℚ) < 1 := by by_contra hc; push Not at hc; nlinarith
+      have c2 : (-1 : ℚ) < k := by by_contra hc; push Not at hc; nlinarith
+      have d1 : k < 1 := by exact_mod_cast c1
+      have d2 : -1 < k := by exact_mod_cast c2
+      omega
+    simp only [pyMod, hfl, hk0, hw]; push_cast; ring
+  · have hk1 : k = 1 := by
+      have a : (k : ℚ) * L ≤ x + L / 2 := by linarith
+      have b : x + L / 2 < ((k : ℚ) + 1) * L := by linarith
+      rw [hw] at hw1 hw2
+      have c1 : (k : ℚ) < 2 := by by_contra hc; push Not at hc; nlinarith
+      have c2 : (0 : ℚ) < k := by by_contra hc; push Not at hc; nlinarith
+      have d1 : k < 2 := by exact_mod_cast c1
+      have d2 : 0 < k := by exact_mod_cast c2
+      omega
+    simp only [pyMod, hfl, hk1, hw]; push_cast; ring
+  · have hk1 : k = -1 := by
+      have a : (k : ℚ) * L ≤ x + L / 2 := by linarith
+      have b : x + L / 2 < ((k : ℚ) + 1) * L := by linarith
+      rw [hw] at hw1 hw2
+      have c1 : (k : ℚ) < 0 := by by_contra hc; push Not at hc; nlinarith
+      have c2 : (-2 : ℚ) < k := by by_contra hc; push Not at hc; nlinarith
+      have d1 : k < 0 := by exact_mod_cast c1
+      have d2 : -2 < k := by exact_mod_cast c2
+      omega
+    simp only [pyMod, hfl, hk1, hw]; push_cast; ring
+
+-- a satellite at z = −10 in the box [−50, 50) with no line-of-sight velocity stays at −10 (it went to 90 before
+-- the repair of the `% lbox` range); one at z = 45 with v_z·inv = 10 wraps to −45
+example : (mkNfw ⟨⟨true, true, true⟩, true, none, 1/2, 100⟩
+      ⟨7, 10, ⟨1, 2, 3⟩, ⟨10, 20, 30⟩, ⟨4, 8, 12⟩, 0, ⟨1, 0, 0⟩, 0⟩ ⟨⟨1, 2, -10⟩, ⟨5, 5, 0⟩⟩).pos.z = -10 ∧
+    (mkNfw ⟨⟨true, true, true⟩, true, none, 1/2, 100⟩
+      ⟨7, 10, ⟨1, 2, 3⟩, ⟨10, 20, 30⟩, ⟨4, 8, 12⟩, 0, ⟨1, 0, 0⟩, 0⟩ ⟨⟨1, 2, 45⟩, ⟨5, 5, 20⟩⟩).pos.z = -45 := by
+  constructor <;> decide +kernel
 
 /-- **nfw_order_and_ncent.**  With NFW satellites the catalogue of an enabled tracer is still the centrals of
 `gen_cent` followed by the satellites, `Ncent` = number of centrals; a tracer that is not enabled is absent. -/
